@@ -13,7 +13,9 @@
 //!   when `blocking_flush` returns true, every event emitted before it is a complete record in SYNCED content of a
 //!   durable file (unless the plan failed a flush / sync call, which makes the worker give the batch up), and no
 //!   record of any file is anything but a complete emitted event, empty, or — only after a short write — a prefix.
-//! The compared line is the constant `flushed`.
+//! The gate (`c10::GATE_*`) fixes the batches, so the execution is determined by the case and the compared line is
+//! `flushed files=[SYNCED/UNSYNCED,…] ops=N`: the files in creation order with their content, and the number of
+//! filesystem operations — what Model/FilePipe.lean computes for the same schedule.
 
 use super::c10::{Fault, Fs, FsInner};
 use hcommon::{Rng, Sexp, Stream, Tier};
@@ -68,11 +70,14 @@ fn run(line: &str) -> String {
         for f in p {
             let l = f.as_list()?;
             let idx = l.first()?.as_u64()?;
-            match (l.get(1)?.as_atom()?, l.len()) {
+            let prev = match (l.get(1)?.as_atom()?, l.len()) {
                 ("err", 2) => plan.insert(idx, Fault::Err),
                 ("short", 3) => plan.insert(idx, Fault::Short(l[2].as_u64()?)),
                 _ => return None,
             };
+            if prev.is_some() {
+                return None; // two faults for one operation index
+            }
         }
         let mut rounds: Vec<Vec<Vec<u8>>> = Vec::new();
         for r in &a[2..] {
@@ -125,24 +130,27 @@ fn run(line: &str) -> String {
         let mut unflushed = 0;
         for round in &rounds {
             {
-                // the worker takes the first event as a batch of its own and then stops at its first filesystem call
-                // (the filesystem is one mutex); the rest of the round queues up behind it as ONE batch
+                // the worker takes the first event as a batch of its own and runs into the closed gate at its first
+                // filesystem call; the rest of the round queues up behind it as ONE batch; then the gate opens
+                use super::c10::{GATE_ARRIVED, GATE_CLOSED};
                 let mut it = round.iter();
                 if let Some(first) = it.next() {
-                    let g = fs.0.lock().unwrap();
+                    GATE_ARRIVED.store(false, Ordering::SeqCst);
+                    GATE_CLOSED.store(true, Ordering::SeqCst);
                     emit_one(first);
                     emitted.push(first.clone());
-                    // give the worker a moment to take the batch and block on the filesystem
-                    drop(g);
-                    let g = {
-                        std::thread::sleep(Duration::from_millis(2));
-                        fs.0.lock().unwrap()
-                    };
+                    let t0 = std::time::Instant::now();
+                    while !GATE_ARRIVED.load(Ordering::SeqCst) && t0.elapsed() < Duration::from_secs(10) {
+                        std::thread::yield_now();
+                    }
+                    if !GATE_ARRIVED.load(Ordering::SeqCst) {
+                        fails.push("worker-never-reached-the-filesystem");
+                    }
                     for e in it {
                         emit_one(e);
                         emitted.push(e.clone());
                     }
-                    drop(g);
+                    GATE_CLOSED.store(false, Ordering::SeqCst);
                 }
             }
             if emit::Emitter::blocking_flush(&files, Duration::from_secs(20)) {
@@ -183,7 +191,20 @@ fn run(line: &str) -> String {
             fails.push("flush-false");
         }
         emit_batcher::verif::set_wait_divisor(1);
-        let out = "flushed".to_string();
+        // with the batches fixed by the gate the whole execution is determined by the case: the files in creation
+        // order with their synced / unsynced content (names carry the ids of the id source and are not compared)
+        let out = {
+            let g = fs.0.lock().unwrap();
+            let mut files = Vec::new();
+            for e in &g.log {
+                if let super::c10::Ev::Created(n) = e {
+                    if let Some(f) = g.files.get(n) {
+                        files.push(format!("{}/{}", hcommon::hex_atom(&f.synced), hcommon::hex_atom(&f.unsynced)));
+                    }
+                }
+            }
+            format!("flushed files=[{}] ops={}", files.join(","), g.op)
+        };
         Some(if fails.is_empty() { out } else { format!("{}\tFAIL:{}", out, fails.join(",")) })
     })()
     .unwrap_or_else(|| "bad-case".into())
@@ -200,9 +221,15 @@ fn gen(rng: &mut Rng, tier: Tier, n: usize) -> Vec<String> {
         let reuse = rng.bool();
         let max_size = *rng.pick(&[8usize, 30, 100, 1_000_000, 1_000_000]);
         let nf = rng.usize(4);
+        let mut used: Vec<u64> = Vec::new();
         let plan: Vec<Sexp> = (0..nf)
             .map(|_| {
-                let idx = Sexp::num(rng.below(40));
+                let mut i = rng.below(40);
+                while used.contains(&i) {
+                    i = (i + 1) % 40;
+                }
+                used.push(i);
+                let idx = Sexp::num(i);
                 if rng.chance(1, 3) {
                     Sexp::list(vec![idx, Sexp::atom("short"), Sexp::num(1 + rng.below(20))])
                 } else {
